@@ -304,6 +304,7 @@ fn main() {
         "flushes" => scn_flushes(&o, &mut tr, "C12"),
         "deflate_protocol" => scn_deflate_protocol(&o, &mut tr, "C14"),
         "capi" => capi::scn_capi(&o, &mut tr, "C17"),
+        "capi_c06" => capi::scn_capi(&o, &mut tr, "C06"),
         "bound" => capi::scn_bound(&o, &mut tr, "C15"),
         "reset" => reset::scn_reset(&o, &mut tr, "C18"),
         "snapshots" => reset::scn_snapshots(&o, &mut tr, "C19"),
